@@ -30,6 +30,7 @@ type Obligation struct {
 	Covers    []string `json:"covers,omitempty"` // labels that must be reached
 	Workers   int      `json:"workers,omitempty"`
 	LogDir    string   `json:"log_dir,omitempty"`
+	MaxSeconds int     `json:"max_seconds,omitempty"`
 }
 
 type Spec struct {
@@ -191,7 +192,13 @@ func runObligation(eng *Engine, spec *Spec, ob Obligation) (res ObligationResult
 	for _, k := range ob.Known {
 		run.KnownIDs[k] = true
 	}
+	maxS := 900
+	if ob.MaxSeconds > 0 {
+		maxS = ob.MaxSeconds
+	}
+	timer := time.AfterFunc(time.Duration(maxS)*time.Second, func() { run.abort(fmt.Sprintf("time limit %ds exceeded", maxS)) })
 	run.Explore()
+	timer.Stop()
 
 	res.Solver, res.Second = hub.Primary, hub.Second
 	res.Paths, res.Done, res.Assumed, res.Panics = run.Paths, run.Done, run.Assumed, run.Panics
